@@ -90,6 +90,8 @@ type World struct {
 	// URLAuthority, when set, makes Serve send absolute-form requests: URL.Host carries this authority, which routing
 	// must ignore (the Host field decides)
 	URLAuthority string
+	// ConnHook, when set, prepares the connection of the next Serve call (one shot).
+	ConnHook func(*Conn)
 }
 
 // CollectParams drains a context's parameter iterator.
@@ -236,8 +238,15 @@ func RouteMW(id int) fox.MiddlewareFunc {
 }
 
 // FoxOpts converts abstract route options into fox options (the tag annotation is always attached).
+// groupAnnotation is ONE option value placed first in the option list of every route the harness registers (a
+// group-wide option, the way applications share a slice of options between routes): whatever an option value keeps
+// between two applications is shared by all routes, and what a route adds afterwards must stay its own.
+type groupKey struct{}
+
+var groupAnnotation = fox.WithAnnotation(groupKey{}, "harness")
+
 func FoxOpts(tag int, o RouteOpt) []fox.RouteOption {
-	opts := []fox.RouteOption{fox.WithAnnotation(TagKey{}, tag)}
+	opts := []fox.RouteOption{groupAnnotation, fox.WithAnnotation(TagKey{}, tag)}
 	for _, c := range tsSeq(o.TS) {
 		if c.redirect {
 			opts = append(opts, fox.WithRedirectTrailingSlash(c.enable))
@@ -650,6 +659,10 @@ func (w *World) Serve(p Probe, rawPath, rawQuery string, inner func(c fox.Contex
 		req.RequestURI = "http://" + w.URLAuthority + req.RequestURI
 	}
 	conn := NewConn()
+	if h := w.ConnHook; h != nil {
+		w.ConnHook = nil
+		h(conn)
+	}
 	obs.Log, obs.Conn = log, conn
 	func() {
 		defer func() {
